@@ -245,6 +245,57 @@ theorem block_structures_distinct_without_current (etas : List Nat) (hl : etas.N
     have := (List.mem_filter.mp h).2
     simp [isRvBlockStructure] at this
 
+/-! ## helpers._group_incompatible_features / all_combinations: the groups are the categories -/
+
+/-- Whatever the key order of the function table (merged, updated, filtered tables): the group
+    names are distinct, the group of a category is exactly the keys of that category (in table
+    order, non-empty), and every key's category has a group. -/
+theorem feature_groups_are_the_categories (keys : List Key) :
+    ((groupByKind keys).map (·.1)).Nodup ∧
+      (∀ e, e ∈ groupByKind keys → e.2 = keys.filter (fun k => k.kind == e.1) ∧ e.2 ≠ []) ∧
+      (∀ k, k ∈ keys → k.kind ∈ (groupByKind keys).map (·.1)) :=
+  groupByKind_inv keys
+
+/-- The grouping does not depend on the key order: permuting the table permutes nothing but the
+    order inside and between the groups. -/
+theorem feature_groups_order_invariant (k1 k2 : List Key) (h : k1.Perm k2) :
+    ∀ e1, e1 ∈ groupByKind k1 → ∃ e2, e2 ∈ groupByKind k2 ∧ e2.1 = e1.1 ∧ e1.2.Perm e2.2 := by
+  intro e1 he1
+  obtain ⟨_, a2, _⟩ := groupByKind_inv k1
+  obtain ⟨_, b2, b3⟩ := groupByKind_inv k2
+  obtain ⟨f1, n1⟩ := a2 e1 he1
+  obtain ⟨y, hy⟩ := List.exists_mem_of_ne_nil _ n1
+  rw [f1] at hy
+  obtain ⟨hy1, hy2⟩ := List.mem_filter.mp hy
+  have hyk : y.kind = e1.1 := by simpa using hy2
+  have := b3 y (h.mem_iff.mp hy1)
+  obtain ⟨e2, he2, hn⟩ := List.mem_map.mp this
+  refine ⟨e2, he2, by rw [hn, hyk], ?_⟩
+  rw [f1, (b2 e2 he2).1]
+  have : e2.1 = e1.1 := by rw [hn, hyk]
+  rw [this]
+  exact h.filter _
+
+/-- Every combination `all_combinations` / `exhaustive` yields is non-empty, uses keys of the table
+    only and has at most one feature per category — for every key order of the table. -/
+theorem all_combinations_one_per_category (keys : List Key) :
+    ∀ c, c ∈ allCombinations keys →
+      c ≠ [] ∧ (∀ k, k ∈ c → k ∈ keys) ∧ c.Pairwise (fun a b => a.kind ≠ b.kind) := by
+  intro c hc
+  simp only [allCombinations, List.mem_filter, List.mem_map] at hc
+  obtain ⟨⟨t, ht, rfl⟩, hne⟩ := hc
+  obtain ⟨g1, g2, _⟩ := groupByKind_inv keys
+  have hkind : ∀ e, e ∈ groupByKind keys → ∀ k, k ∈ e.2 → k.kind = e.1 := by
+    intro e he k hk
+    rw [(g2 e he).1] at hk
+    simpa using (List.mem_filter.mp hk).2
+  obtain ⟨p1, p2⟩ := pick_groups (groupByKind keys) g1 hkind t ((mem_product _ t).mp ht)
+  refine ⟨by intro h; simp [h] at hne, ?_, p2⟩
+  intro k hk
+  obtain ⟨e, he, hke⟩ := p1 k hk
+  rw [(g2 e he).1] at hke
+  exact (List.mem_filter.mp hke).1
+
 /-! ## helpers.all_combinations / itertools.product -/
 
 /-- `itertools.product(*gs)`: exactly the tuples taking one element of every list … -/
